@@ -131,6 +131,19 @@ def run_model(fv, seed, valuations=("default",), value_arrays=("own", "synthetic
                 viols.append(violation("runs", "simulate", "EXC:" + type(e).__name__, str(e)[:500], params=vname, value_array=va))
                 continue
             traces += 1
+            if va != "own" and r.T <= 3:
+                # a function built for target solve_and_simulate must also use value arrays that the caller passes
+                try:
+                    from lcm.entry_point import get_lcm_function
+
+                    sas, _ = get_lcm_function(b.model, targets="solve_and_simulate", debug_mode=False)
+                    import jax.numpy as jnp
+
+                    fr_sas = sas(params, initial_states=e1.to_jax(init), vf_arr_list=[jnp.asarray(v) for v in Vuse], seed=12345)
+                    if not np.array_equal(fr_sas.to_numpy(dtype=np.float64), fr.to_numpy(dtype=np.float64)):
+                        viols.append(violation("value-arrays-in-use", "simulate", "FRAME", "the solve_and_simulate function ignores the value arrays passed by the caller (frame differs from simulate with the same arrays)", params=vname, value_array=va))
+                except Exception as e:
+                    viols.append(violation("runs", "simulate", "EXC:" + type(e).__name__, f"solve_and_simulate with vf_arr_list: {str(e)[:300]}", params=vname))
             n = len(next(iter(init.values())))
             if len(fr) != n * r.T:
                 viols.append(violation("panel", "simulate", "SHAPE", f"{len(fr)} rows for {n} agents x {r.T} periods", params=vname, value_array=va))
